@@ -7,6 +7,7 @@ import (
 	"strings"
 	"time"
 
+	codectypes "github.com/cosmos/cosmos-sdk/codec/types"
 	sdk "github.com/cosmos/cosmos-sdk/types"
 
 	"verifmc/engine"
@@ -147,6 +148,11 @@ func (c *C16) Ops(s *HState) []engine.Op {
 			}
 		}
 		ops = append(ops, engine.OpN("Confirm", ch, 0, 0, 0, 4), engine.OpN("Confirm", ch, 0, 0, 2, 4)) // an empty signature
+		// a confirmation in the Minter connector's format (the RLP list [v, r, s] of one signature: 69 bytes): what the
+		// queries return is what was submitted, byte for byte
+		ops = append(ops, engine.OpN("Confirm", ch, 0, 0, 0, 7), engine.OpN("Confirm", ch, 1, 1, 2, 7))
+		// ... and one that is present on the wire with length 0 (it decodes to an empty, non-nil byte string)
+		ops = append(ops, engine.OpN("Confirm", ch, 0, 0, 0, 6), engine.OpN("Confirm", ch, 0, 0, 2, 6))
 		if c.Keyless {
 			// E has no registered external address: it claims the zero address / A's address as signer
 			for ref := 0; ref < 5; ref++ {
@@ -372,6 +378,15 @@ func (c *C16) confirm(in *hub.Instance, g *c16Ghost, op engine.Op, st *engine.St
 			otx = in.Hub.GetOutgoingTx(in.Ctx(), mhubtypes.ChainID(chain), conf.GetStoreIndex(mhubtypes.ChainID(chain)))
 		}()
 	}
+	if claim == 7 {
+		long := func(sig []byte) []byte { return append([]byte{0xf8, 0x43, 0x1b, 0xa0}, sig...) }
+		switch x := conf.(type) {
+		case *mhubtypes.SignerSetTxConfirmation:
+			x.Signature = long(x.Signature)
+		case *mhubtypes.BatchTxConfirmation:
+			x.Signature = long(x.Signature)
+		}
+	}
 	if claim == 4 {
 		switch x := conf.(type) {
 		case *mhubtypes.SignerSetTxConfirmation:
@@ -382,7 +397,22 @@ func (c *C16) confirm(in *hub.Instance, g *c16Ghost, op engine.Op, st *engine.St
 	}
 	pre := c.rawSigs(in)
 	var r hub.TxResult
-	r = in.DeliverMsg(hub.ConfirmMsg(signer, chain, conf))
+	msg := hub.ConfirmMsg(signer, chain, conf)
+	if claim == 6 {
+		var tag byte
+		switch x := conf.(type) {
+		case *mhubtypes.SignerSetTxConfirmation:
+			x.Signature, tag = nil, 0x1a // field 3, length-delimited
+		case *mhubtypes.BatchTxConfirmation:
+			x.Signature, tag = nil, 0x22 // field 4
+		}
+		any, err := mhubtypes.PackConfirmation(conf)
+		if err != nil {
+			panic(err)
+		}
+		msg.Confirmation = &codectypes.Any{TypeUrl: any.TypeUrl, Value: append(append([]byte{}, any.Value...), tag, 0x00)}
+	}
+	r = in.DeliverMsg(msg)
 	post := c.rawSigs(in)
 	st.Obs = fmt.Sprint(r.OK())
 	idx := conf.GetStoreIndex(mhubtypes.ChainID(chain))
@@ -413,7 +443,7 @@ func (c *C16) confirm(in *hub.Instance, g *c16Ghost, op engine.Op, st *engine.St
 	if claim == 3 || claim == 5 {
 		st.Violate("C16", "confirmation_recorded_for_validator_without_registered_address", "SubmitTxConfirmation", "op %s: validator %s never registered an external address on %s, yet its confirmation naming signer %s was recorded", op, val.Name, chain, ext)
 	}
-	if claim == 4 {
+	if claim == 4 || claim == 6 {
 		st.Violate("C16", "empty_signature_recorded_as_confirmation", "SubmitTxConfirmation", "op %s: a confirmation without signature bytes was recorded", op)
 	}
 	if claim == 1 {
